@@ -96,6 +96,18 @@ class Tags:
                         return forms.pop()
                     return None
             r = roles.role_of(x)
+            if r == "STEP" and isinstance(x, ast.Attribute) and dotted(x) in self.du.by_name:
+                # self._step read after `self._step += c` in the same function
+                ds = self.du.reaching(nid, dotted(x))
+                if ds and all(d.sel and d.sel[0][0] == "aug" and d.sel[0][1] == "Add"
+                              and isinstance(d.value, ast.Constant) for d in ds):
+                    incs = {d.value.value for d in ds}
+                    if len(incs) == 1:
+                        return STEP + Poly.const(incs.pop())
+                if ds and all(not d.sel and d.value is not None for d in ds) and depth < 6:
+                    forms = {repr(self.form(d.value, d.node, depth + 1)) for d in ds}
+                    if len(forms) == 1:
+                        return self.form(ds[0].value, ds[0].node, depth + 1)
             if r in ("START", "DT", "STEP"):
                 return Poly.sym(r)
             if r == "NUM_STEPS":
